@@ -6,7 +6,11 @@ import sqlite3
 import conductor.filename as f
 from conductor.config import ARCHIVE_STAGING, ARCHIVE_VERSION_INDEX
 from conductor.context import Context
-from conductor.errors import ArchiveFileInvalid, DuplicateTaskOutput
+from conductor.errors import (
+    ArchiveFileInvalid,
+    ArchiveStagingDirTaken,
+    DuplicateTaskOutput,
+)
 from conductor.execution.version_index import VersionIndex
 from conductor.utils.user_code import cli_command
 
@@ -54,7 +58,13 @@ def main(args):
         # A restore that was killed leaves its staging directory behind. Its
         # contents must never be mistaken for the contents of this archive.
         shutil.rmtree(staging_path, ignore_errors=True)
-        staging_path.mkdir(exist_ok=True)
+        try:
+            staging_path.mkdir()
+        except FileExistsError as ex:
+            # The leftovers could not be removed (e.g., they contain read-only
+            # directories and we are not root). Extracting on top of them
+            # would mix them with the contents of this archive.
+            raise ArchiveStagingDirTaken(staging_dir=str(staging_path)) from ex
         extract_archive(archive_file, staging_path)
 
         archive_version_index_path = staging_path / ARCHIVE_VERSION_INDEX
